@@ -147,73 +147,72 @@ def run(ctx, chk):
                      (J + 'set_value', lambda st_: [ipo.arg_object(st_, 'joy'), S(8, 'value')])):
         st = ipo.new_state()
         rs = ipo.run(fn, args(st), st)
-        guard = None
-        prev = new = None
-        latch_paths = 0
-        for r in rs:
-            latch = [e for e in r.state.events if e[0] == 'store' and e[2][-1][1] == 'next_interrupt']
-            calls = [e for e in r.state.events if e[0] == 'call' and e[1] == J + 'get_value']
-            if len(calls) >= 2:
-                prev = O(8, 'and', calls[0][3], C(8, 0x0f))
-                new = O(8, 'and', calls[-1][3], C(8, 0x0f))
-            if latch:
-                latch_paths += 1
-                # the last decision before the store mentioning both samples
-                for d in r.state.decisions:
-                    ss = syms_of(d[0])
-                    if calls and any(s_ == calls[0][3] for s_ in ss) and any(s_ == calls[-1][3] for s_ in ss):
-                        guard = d[0]
-                v = latch[-1][3]
-                if not (v[0] == 'agg' and v[2][0] == C(8, 16)):
-                    chk.fail('C17.3', fn.split('::')[-1] + ':flag', 'latch is set to %s, expected the joypad request (0x10)'
-                             % fmt(v), file, None)
+        # the latch condition as a Boolean function of the two samples of the input lines (get_value before / after),
+        # compared bit-precisely with "some line went from 1 to 0".  For a button press the domain is restricted to
+        # what a press can do (C17.1/C17.2: lines only go down).
+        from .. import bvproof
+        from ..bdd import BDD, BV, TermBV, Unsupported
         key = 'edge:' + fn.split('::')[-1]
-        if guard is None or prev is None:
-            chk.fail('C17.3', key, '%s: no guard comparing the line values before and after the change was found '
-                     '(latch stores on %d paths)' % (fn, latch_paths), file, None)
+        m = BDD()
+        conv = TermBV(m)
+        P, N = S(8, 'lines_before'), S(8, 'lines_after')
+        vp, vn = conv(P), conv(N)
+        latch_c = nolatch_c = 0
+        latch_paths = 0
+        flag_bad = None
+        shape_bad = None
+        try:
+            for r in rs:
+                if r.status == 'unreachable':
+                    continue            # the impossible arm of an exhaustive match
+                if r.status != 'ok':
+                    shape_bad = shape_bad or '%s can diverge (%s %s)' % (fn, r.status, r.detail)
+                    continue
+                latch = [e for e in r.state.events if e[0] == 'store' and e[2][-1][1] == 'next_interrupt']
+                calls = [e for e in r.state.events if e[0] == 'call' and e[1] == J + 'get_value']
+                if len(calls) < 2:
+                    if latch:
+                        shape_bad = shape_bad or 'the latch is stored on a path that does not sample the lines before and after'
+                    ren = {}
+                else:
+                    ren = {calls[0][3]: P, calls[-1][3]: N}
+                _, _, K = bvproof.setup(r.state.env, m, conv, ren, only={'lines_before', 'lines_after'})
+                if latch:
+                    latch_paths += 1
+                    v = latch[-1][3]
+                    if not (v[0] == 'agg' and v[2][0] == C(8, 16)):
+                        flag_bad = 'latch is set to %s, expected the joypad request (0x10)' % fmt(v)
+                    latch_c = m.OR(latch_c, K)
+                else:
+                    nolatch_c = m.OR(nolatch_c, K)
+        except Unsupported as e:
+            chk.error('C17.3 %s: outside the bit-vector fragment: %s' % (key, e.why))
             continue
-        problems = []
-        base = Env_for(ipo)
-        r1, r2 = prev[3], new[3]          # the two samples (results of get_value before / after)
+        if flag_bad:
+            chk.fail('C17.3', fn.split('::')[-1] + ':flag', flag_bad, file, None)
+        if shape_bad or not latch_paths:
+            chk.fail('C17.3', key, '%s: %s' % (fn, shape_bad or 'the interrupt latch is never set'), file, None)
+            continue
+        lowp, lown = vp & 0x0f, vn & 0x0f
+        fell = (lowp & ~lown).nonzero()
+        dom = 1
         if fn.endswith('press_button'):
-            # a press changes at most one line and only downwards (C17.1 + C17.2): before = X | bit, after = X
-            from .c10 import rename
-            for line in range(4):
-                bit = 1 << line
-                X = S(8, 'other_lines')
-                e2 = base.copy()
-                e2.assume(X, AV(8, 0, 0x0f, 0xf0 | bit, 0))
-                g_fall = rename(rename(guard, r1, O(8, 'or', X, C(8, bit))), r2, X)
-                if e2.const_of(g_fall) != 1:
-                    problems.append('line %d falling alone does not satisfy the guard %s' % (line, fmt(guard)))
-            X = S(8, 'other_lines')
-            g_same = rename(rename(guard, r1, X), r2, X)
-            e5 = base.copy()
-            e5.assume(X, AV(8, 0, 0x0f, 0xf0, 0))
-            if e5.const_of(g_same) != 0:
-                problems.append('guard can hold when no line changed')
+            dom = m.NOT((lown & ~lowp).nonzero())        # no line rises
+        both = m.AND(dom, m.AND(latch_c, nolatch_c))
+        if both != 0:
+            chk.error('C17.3 %s: the latch decision is not a function of the two samples' % key)
+            continue
+        miss = m.AND(dom, m.AND(fell, m.NOT(latch_c)))
+        spur = m.AND(dom, m.AND(m.NOT(fell), latch_c))
+        if miss != 0 or spur != 0:
+            w = m.witness(miss if miss != 0 else spur)
+            chk.fail('C17.3', key, '%s: input lines %#x -> %#x: %s' % (
+                fn.split('::')[-1], w.get('lines_before', 0) & 0xf, w.get('lines_after', 0) & 0xf,
+                'a line falls but the interrupt latch is not set' if miss != 0 else
+                'no line falls but the interrupt latch is set'), file, None)
         else:
-            for line in range(4):
-                e2 = base.copy()
-                e2.assume(prev, AV(8, 0, 0xf, 0xf0, 1 << line))
-                e2.assume(new, AV(8, 0, 0xf, 0xf0 | (1 << line), 0))
-                g = e2.const_of(guard)
-                if g != 1:
-                    problems.append('line %d falling while other lines change arbitrarily does not decide the guard %s'
-                                    % (line, fmt(guard)))
-            e3 = base.copy()
-            e3.assume(prev, AV.const(8, 0))
-            if e3.const_of(guard) != 0:
-                problems.append('guard can hold when all lines were already low')
-            e4 = base.copy()
-            e4.assume(new, AV.const(8, 0x0f))
-            if e4.const_of(guard) != 0:
-                problems.append('guard can hold when all lines end high')
-        if problems:
-            chk.fail('C17.3', key, '%s sets the interrupt latch under %s, which is not a per-line falling-edge test: %s'
-                     % (fn.split('::')[-1], fmt(guard), problems[0]), file, None, {'guard': fmt(guard), 'problems': problems})
-        else:
-            chk.ok('C17.3', key, sample={'function': fn, 'guard': fmt(guard)})
+            chk.ok('C17.3', key, sample={'function': fn, 'latch set iff': '(before & !after & 0x0f) != 0',
+                                         'domain': 'lines only fall' if fn.endswith('press_button') else 'all line pairs'})
     # ---- rule 4
     st = ipf.new_state()
     me = ipf.arg_object(st, 'joy')
